@@ -100,7 +100,7 @@ Section Machine.
 
   Lemma step_Inv s o : Inv s -> adm s o = true -> Inv (fst (step s o)).
   Proof.
-    intros HI Ha. destruct HI as [A B C D]. destruct o as [c p i|x| |T|T|k|a f b ia ib|]; simpl in *.
+    intros HI Ha. destruct HI as [A B C D]. destruct o as [c p i|x| |T|T|T|k|a f b ia ib|]; simpl in *.
     - (* New *)
       apply andb_true_iff in Ha. destruct Ha as [Hp Hi].
       assert (HW : WorldOk (live s ++ [O (next s) c p])).
@@ -124,7 +124,8 @@ Section Machine.
     - now apply Inv_sweep.
     - now apply Inv_sweep.
     - now apply Inv_sweep.
-    - destruct (nth_error (vars s) k); simpl; [now apply Inv_sweep|constructor; auto].
+    - constructor; simpl; auto.
+    - destruct (nth_error (vars s) k) as [[T [| |l]]|]; simpl; try (now apply Inv_sweep); constructor; auto.
     - (* Relate *)
       destruct (relate_spec (live s) (g s) a f b ia ib A B Ha) as [r' [nw [E [Hr' [Hs _]]]]].
       rewrite E. simpl. constructor; simpl; auto.
